@@ -25,7 +25,8 @@ VendorConstantNames == {"ConstantCompositeContinuedINTEL", "SpecConstantComposit
 
 \* [must, dontcare] per base predicate
 Class(p) ==
-  CASE p = "is_type" -> [must |-> TypeNames, dc |-> VendorTypeNames]
+  \* every OpType... instruction declares a type, vendor-specific ones included (the tree lists them all)
+  CASE p = "is_type" -> [must |-> TypeNames \cup VendorTypeNames, dc |-> {}]
     [] p = "is_constant" -> [must |-> ConstantNames, dc |-> VendorConstantNames]
     [] p = "is_annotation" -> [must |-> AnnotationNames, dc |-> {}]
     [] p = "is_location_debug" -> [must |-> LocationDebugNames, dc |-> {}]
